@@ -101,7 +101,10 @@ def compile_cxx(name, sources, flags=None, compiler='g++', libs=(), extra_inc=()
     cached by (include-tree hash, compiler, flags, source text), the binary by the set of objects."""
     flags = list(STRICT if flags is None else flags)
     texts = [open(s, 'rb').read() for s in sources]
-    okeys = [sha(compiler, ' '.join(flags), ' '.join(extra_inc), t) for t in texts]
+    def hdrs(t):   # harness headers this TU includes (its object must be rebuilt when they change)
+        names = sorted(set(re.findall(rb'#include "([\w.]+\.hpp)"', t)))
+        return sha(*[open(os.path.join(HARNESS, n.decode()), 'rb').read() for n in names if os.path.exists(os.path.join(HARNESS, n.decode()))])
+    okeys = [sha(compiler, ' '.join(flags), ' '.join(extra_inc), hdrs(t), t) for t in texts]
     key = sha(' '.join(libs), *okeys)
     d = cache_dir('bin')
     od = cache_dir('obj')
@@ -237,6 +240,11 @@ def run_tlc(module, cfg, env=None, workers=1, simulate=None, depth=None, coverag
         pass
     if m:
         res.generated, res.distinct = int(m.group(1)), int(m.group(2))
+    if simulate:
+        m = re.search(r'The number of states generated: (\d+)', out)
+        if m:
+            res.generated = int(m.group(1))
+            res.distinct = int(m.group(1))
     m = re.search(r'The depth of the complete state graph search is (\d+)', out)
     if m:
         res.depth = int(m.group(1))
